@@ -126,6 +126,52 @@ def norm(unit, n, defs=None):
     return _unique()
 
 
+def const_local_defs(unit, fn):
+    """{local id: term} for locals of fn that are initialised once and never written afterwards (declared const, or
+    simply not assigned / incremented / passed by non-const reference): substituting them makes a rule see the same
+    expression whether or not the author named an intermediate value."""
+    if "_cdefs" in fn:
+        return fn["_cdefs"]
+    from . import facts as F
+    written = set()
+    for n in F.walk(fn.get("body"), into_lambdas=True):
+        k = n.get("k")
+        tgt = None
+        if k in ("assign", "compound_assign"):
+            tgt = n.get("l")
+        elif k == "unop" and n.get("op") in ("++", "--", "&"):
+            tgt = n.get("e")
+        elif k == "call":
+            d = callee_decl(unit, n)
+            prefs = (d or {}).get("prefs", [])
+            for i, a in enumerate(n.get("args", [])):
+                if i < len(prefs) and prefs[i] in ("lref", "rref"):
+                    x = unwrap(unit, a)
+                    if x is not None and x.get("k") == "ref":
+                        written.add(x.get("id"))
+            if n.get("recv") is not None and d is not None and not d.get("const", True):
+                tgt = n.get("recv")
+        if tgt is not None:
+            x = unwrap(unit, tgt)
+            while x is not None and x.get("k") in ("member", "subscript"):
+                x = unwrap(unit, x.get("base"))
+            if x is not None and x.get("k") == "ref":
+                written.add(x.get("id"))
+    defs = {}
+    for v in F.walk(fn.get("body"), into_lambdas=False):
+        if v.get("k") == "var" and v.get("init") is not None and "id" in v and v["id"] not in written:
+            ty = unit.ty(v.get("t")) or ""
+            if "const" in ty or v["id"] not in written:
+                defs[v["id"]] = norm(unit, v["init"], defs)
+    fn["_cdefs"] = defs
+    return defs
+
+
+def snorm(unit, fn, n):
+    """norm() with the function's never-rewritten locals replaced by their initialisers"""
+    return norm(unit, n, const_local_defs(unit, fn))
+
+
 def roots(term, out=None):
     """decl ids of variables occurring in a term ('this' is root -1)"""
     if out is None:
